@@ -1,3 +1,4 @@
+import HqModel.Props.C09Rpc
 import HqModel.Props.C07Restart
 import HqModel.Lemmas.JobSteps
 import HqModel.Lemmas.CoreSteps
